@@ -313,7 +313,8 @@ def read_vectors(log_path, tag, limit=0):
         for ln in f:
             if ln.startswith(pre):
                 vecs.append(json.loads(json.loads(ln.strip()[len(pre):-2])))
-    vecs.sort(key=jd)
+    uniq = {jd(v): v for v in vecs}          # -simulate prints a behaviour once per evaluation of Finish
+    vecs = [uniq[k] for k in sorted(uniq)]
     if limit and len(vecs) > limit:
         rnd = random.Random(int(os.environ.get("VERIF_SEED", "0")))
         vecs = rnd.sample(vecs, limit)
